@@ -239,7 +239,14 @@ fn gain(frames: f32) -> f64 {
 
 fn draw_time(r: &mut Rng) -> f32 {
     match r.below(8) {
-        0 => 0.0,
+        // (zero frames, with either sign of zero: -0.0 >= 0 as well)
+        0 => {
+            if r.bool() {
+                0.0
+            } else {
+                -0.0
+            }
+        }
         1 => 1e-3,
         2 => 1.0,
         3 => 1e6,
@@ -609,6 +616,28 @@ where
                 let frame = F::from_unit(&vals);
                 // what the detector really sees (after the format conversion)
                 let mut x = frame.unit();
+                {
+                    // the rectifiers called the way user code calls them: method syntax on the unit structs
+                    use dasp_peak::Rectifier;
+                    let (mut fw, mut pw, mut nw) = (peak::FullWave, peak::PositiveHalfWave, peak::NegativeHalfWave);
+                    let full = F::unit_signed(fw.rectify(frame));
+                    let pos = pw.rectify(frame).unit();
+                    let neg = nw.rectify(frame).unit();
+                    for ch in 0..chans {
+                        check!(
+                            obs,
+                            full[ch] == x[ch].abs() && pos[ch] == x[ch].max(0.0) && neg[ch] == x[ch].min(0.0),
+                            "envelope.rectifier-method",
+                            "channel {} of {:?}: FullWave / PositiveHalfWave / NegativeHalfWave .rectify() gave {} / {} / {} for amplitude {}",
+                            ch,
+                            frame,
+                            full[ch],
+                            pos[ch],
+                            neg[ch],
+                            x[ch]
+                        );
+                    }
+                }
                 let got = if let Some(a) = adapt.as_mut() {
                     let exhausted = matches!(end, Some(e) if fed >= e);
                     check_eq!(obs, a.is_exhausted(), exhausted, "envelope.adaptor-exhausted", "adaptor is_exhausted() after {} frames", fed);
